@@ -173,6 +173,11 @@ def run_one(scn):
                     dst = os.path.join(shared, pkg.replace("/", "__") + ".COND")
                     shutil.move(src, dst)
                     os.symlink(os.path.relpath(dst, os.path.dirname(src)), src)
+        for pkg, other in (scn.get("cond_links") or {}).items():
+            # one COND file serving two packages: <pkg>/COND is a symbolic link to <other>/COND (same definitions in both)
+            src = os.path.join(root, pkg, "COND")
+            os.unlink(src)
+            os.symlink(os.path.relpath(os.path.join(root, other, "COND"), os.path.dirname(src)), src)
         for plant in scn.get("plant", []):
             p = os.path.join(root, plant["path"])
             os.makedirs(os.path.dirname(p), exist_ok=True)
